@@ -21,8 +21,9 @@ RULES = {
     'R6': 'an overwrite ring that the writer has just emptied is writable: at write_pt == read_pt the "full" verdict that depends on the wake-up count is not reachable in overwrite mode, or the writer-side reclaim takes the count of the chunk it drops back (timedwait/reclaim callback in the make-room loop)',
     'R5': 'ring index arithmetic the overwrite path relies on (= C07.R2 chunk_step: skips the header, rounds up, result in [0, word_size - 1]; C07.R6 space_free: three index cases, an empty ring offers word_size)',
     'R7': 'a write that is refused drops nothing: in overwrite mode the make-room loop is entered only after the requested length (plus the margin) was compared with the size of the whole ring, so a chunk that can never fit does not cost every stored chunk before it is refused',
+    'R8': 'the dump ends with the last record: the two words behind a chunk - what the reader takes for the next header - are overwritten behind the committed length, in commit (= C07.R7; the blackbox reserves more than it commits, so marks put behind the reserved length leave stale payload right behind the newest record)',
 }
-FLOORS = {'R1': 5, 'R2': 3, 'R3': 9, 'R4': 2, 'R5': 8, 'R6': 1, 'R7': 1}
+FLOORS = {'R1': 5, 'R2': 3, 'R3': 9, 'R4': 2, 'R5': 8, 'R6': 1, 'R7': 1, 'R8': 3}
 
 
 def run(ctx):
@@ -51,6 +52,11 @@ def run(ctx):
             r['rule'] = 'R5'
             ctx.results.append(r)
     r7(ctx)
+    sub = type(ctx)(prog, ctx.prop, ctx.tier, ctx.depth)
+    c07.r7(sub)
+    for r in sub.results:
+        r['rule'] = 'R8'
+        ctx.results.append(r)
 
 
 def r1(ctx):
@@ -67,6 +73,10 @@ def r1(ctx):
     body = max(lp, key=lambda x: len(x[1]))[1] if lp else set()
     # the loop condition: space_free < len + K
     allc = [b for b in f.blocks.values() if b.cond is not None and has_call(b.cond, 'qb_rb_space_free')]
+    if lp and not any(b.id in body for b in allc):
+        ctx.check('R1', 'loop-on-margin-comparison', False, rec[0], '',
+                  'the make-room loop does not measure the free space in its condition (it works from a value taken before the loop): what the dropped chunks give back is not what a tally of their lengths says - lengths are rounded up to words, and an emptied ring is free as a whole - so a write that has to drop everything gives up with the ring already emptied')
+        return
     if len(allc) != 2:
         raise AnalysisBroken('qb_rb_chunk_alloc: %d space_free comparisons (expected overwrite + normal mode)' % len(allc))
 
